@@ -25,11 +25,11 @@ ARefill   == Running /\ s.p >= s.e /\ s.e < Len(data) /\ Do(Refill(s, data, B))
 AFlush    == Running /\ s.p >= s.e /\ s.e >= Len(data) /\ Do(Flush(s, Dev))
 AMain     == CanScan /\ s.st = "main"    /\ Do(SMain(s, data))
 AComment  == CanScan /\ s.st = "comment" /\ Do(SComment(s, data))
-ALiteral  == CanScan /\ s.st = "literal" /\ Do(SLiteral(s, data))
+ALiteral  == CanScan /\ s.st = "literal" /\ Do(SLiteral(s, data, Dev))
 ALitHex   == CanScan /\ s.st = "lithex"  /\ Do(SLitHex(s, data))
 ANumber   == CanScan /\ s.st = "number"  /\ Do(SNumber(s, data))
 AFloat    == CanScan /\ s.st = "float"   /\ Do(SFloat(s, data))
-AKeyword  == CanScan /\ s.st = "keyword" /\ Do(SKeyword(s, data))
+AKeyword  == CanScan /\ s.st = "keyword" /\ Do(SKeyword(s, data, Dev))
 AString   == CanScan /\ s.st = "string"  /\ Do(SString(s, data, Dev))
 AString1  == CanScan /\ s.st = "string1" /\ Do(SString1(s, data, Dev))
 AStringLF == CanScan /\ s.st = "stringlf" /\ Do(SStringLF(s, data))
